@@ -222,7 +222,7 @@ def case(spec):
 
 def main(tier, seed, scale=1.0):
     BIN['san'] = build.ensure('san')
-    n = int((150 if tier == 'quick' else 15000) * scale)
+    n = int((300 if tier == 'quick' else 15000) * scale)
     specs = [(seed, i, tier) for i in range(n)]
     rule = ('one case = one hostile catalogue (names and directory bytes from 0x01-0x7F incl. / .. - control characters '
             'and shell metacharacters) in a sandbox with the destination 6 levels deep and decoy files at every level; '
